@@ -35,7 +35,7 @@ func N(labels ...string) Name {
 func (g *Gen) label() string { return safeLabels[g.R.Intn(len(safeLabels))] }
 
 func (g *Gen) someLabel() string {
-	if g.HiByte && g.R.Chance(1, 3) {
+	if g.HiByte && g.R.Chance(1, 3) || g.R.Chance(1, 25) {
 		return hiLabels[g.R.Intn(len(hiLabels))]
 	}
 	if g.R.Chance(1, 6) {
@@ -220,7 +220,7 @@ func (g *Gen) zone(z Name, o Opts, depth int) {
 	if o.Nested && depth < 2 {
 		// a delegated child: NS only, with or without glue (in-zone target), sometimes located NS
 		d := z.Child("deleg")
-		withGlue := g.R.Chance(1, 2) || o.MixedRd
+		withGlue := g.R.Chance(1, 2) || o.MixedRd || g.HiByte
 		ip := ""
 		if withGlue {
 			ip = g.randIP()
@@ -229,6 +229,10 @@ func (g *Gen) zone(z Name, o Opts, depth int) {
 		if o.MixedRd {
 			// the target written with upper-case letters: its glue is stored under the lower-cased name
 			tgt = d.Child("NS")
+		}
+		if g.HiByte {
+			// a target with bytes above 0x7f (invalid UTF-8, a UTF-8 upper-case letter) and ASCII upper case
+			tgt = d.Child([]string{"ns\x80", "N\xc3\x89", "\xff\xfe\xfdS"}[g.R.Intn(3)])
 		}
 		g.NS(d, tgt, "", ip, nil)
 		if g.R.Chance(1, 2) {
@@ -292,6 +296,7 @@ func Generate(r *hlib.Rng, class string, mtime int64) *Gen {
 		o.Nested = true
 	case "hibyte":
 		g.HiByte = true
+		o.Nested = true
 	case "odd":
 		o.Odd = true
 		o.Located = r.Chance(1, 2)
